@@ -87,4 +87,10 @@ def feedAll (T : Tables) (slot : Bytes → Nat) (limit : Nat) :
       let r' := feedAll T slot limit r.2.1 r.2.2.1 cs
       (r.1 ++ r'.1, r'.2)
 
+/-- the connection is closed (`releaseTCP`): `c.buffer = nil`, the inbound ring - whatever it holds - goes back
+    to the pool (`inboundBuffer.Done()`) -/
+def InConn.close (pool : Pool) (c : InConn) : Pool × InConn :=
+  let r := c.inb.release pool
+  (r.1, { inb := r.2, buf := [] })
+
 end RcVerif.ConnIn
